@@ -16,6 +16,7 @@ CLAIMS = {
  "C05": ("model_checking", "Deep snapshot of every log before each step of every bounded history, compared field-wise after it.", "§5 C05"),
  "C06": ("model_checking", "Join and Append executed symbolically with the repository's real signing/verification path: a source chain with an invalid entry of symbolic kind and position against a destination holding a symbolic prefix; verdict compared with a reference candidate computation, all-or-nothing checked on state and on future behaviour (twin log).", "§5 C06"),
  "C07": ("model_checking", "The repository's signing path (CreateEntryWithIO, ToHashable, toBuffer, OrbitDB provider, keystore) is executed symbolically on an entry with symbolic payload bytes, clock and links; for each of 17 single-field modifications the solver shows that the signing documents differ (verification fails) or returns the colliding values.", "§5 C07"),
+ "C08": ("model_checking", "The repository's codec glue (Normalize, ToJsonableEntry, the atlas as built by cbor.IO, IOCbor.Write/Read/DecodeRawEntry/PreSign/DecryptLinks, Entry.ToPlain) is executed symbolically over an abstract canonical CBOR document: field-wise losslessness, identifier stability under re-encoding and rebuilding, and identifier change under 16 single-field mutations are solver obligations. Bit-exactness of pinned vectors is not claimed.", "§5 C08"),
  "C09": ("model_checking", "All four loaders against the stored replica of every bounded history; in the explore runs every interleaving of the fetcher's worker goroutines (= every block arrival order) is enumerated by the engine's scheduler while data stays symbolic; result compared with the original log.", "§5 C09"),
  "C10": ("model_checking", "As C09 with every limit n in [0,size+1]; the expected set is computed by a reference oracle that does not depend on the schedule, so equality on every explored schedule is the required independence from concurrency and arrival order.", "§5 C10"),
  "C11": ("model_checking", "Symbolic fault table (absent / undecodable / hung) and exclusion set over the stored log, every worker interleaving; deadlock = non-termination; request journal checked for duplicates and excluded hashes; result compared with reference reachability.", "§5 C11"),
